@@ -63,6 +63,21 @@ func localRoot(v ssa.Value) bool {
 				v = x.Call.Args[0]
 				continue
 			}
+			if sc := x.Call.StaticCallee(); sc != nil {
+				name := sc.String()
+				if o := sc.Origin(); o != nil {
+					name = o.String()
+				}
+				switch name {
+				case "slices.AppendSeq", "slices.Grow", "slices.Clip":
+					if len(x.Call.Args) > 0 {
+						v = x.Call.Args[0]
+						continue
+					}
+				case "slices.Collect", "slices.Sorted", "maps.Collect", "slices.Clone", "maps.Clone", "strings.Split", "strings.Fields", "strings.SplitN":
+					return true // freshly allocated result
+				}
+			}
 			return false
 		case *ssa.Phi:
 			for _, e := range x.Edges {
